@@ -41,7 +41,7 @@ def nb(nfft, real):
 def axis_case(draw):
     row = draw(st.sampled_from(ROWS))
     cplx = draw(st.booleans())
-    x = draw(gen.signal(16, 64, "complex" if cplx else "real", kinds=("noise", "tones", "ar", "trend", "int"),
+    x = draw(gen.signal(n=draw(gen.lengths(16, 64)), dtype="complex" if cplx else "real", kinds=("noise", "tones", "ar", "trend", "int"),
                         noise_levels=(0.1, 1.0)))
     x = est.sanitize(row, x)
     N = x["n"]
